@@ -156,7 +156,7 @@ func checkC22(p *Prog, r *Result, tier string) {
 		"AP both stores create a node's keys only past a successful GetPod of the node's pod; " +
 		"AN calcium.AddNode is Txn(cond: resource records, then: node record, rollback: remove the resource records unless the cond itself failed — in which case the records found belong to an existing node); " +
 		"PX the cpumem plugin refuses AddNode when a resource record exists, before it writes; " +
-		"FI at the Txn sites that write node and node-resource records, a failure after the first lasting effect is compensated (rules T1–T3 of C11 restricted to node effects); " +
+		"FI at the Txn sites that write node and node-resource records, a failure after the first lasting effect is compensated (rules T1–T3 of C11 restricted to node effects), and the resource manager rolls a partly failed AddNode/RemoveNode back on exactly the plugins that answered (T5) — a plugin that refused the node because it exists keeps the existing record; " +
 		"LC every writer that can invalidate an emptiness or parent-exists test holds, on every synchronous path, the lock class under which calcium runs that test: store.AddWorkload vs RemoveNode's emptiness test (pod lock), store.AddNode vs RemovePod's test (pod lock), store.RemovePod and store.RemoveNode themselves."
 	r.NotCovered = "interleavings as such (the LC rule compares lock classes, not keys: two operations in different pods hold the same class but different locks — which is what is wanted here, since the conflicting operations name the same pod); faults inside compensations; the volume/binary plugins' own existence checks; that a pod-lock callback over an EMPTY node set holds no lock at all (part of the recorded AddNode finding)"
 	r.Assumptions = []string{"A2 (lock helpers run their callback with the lock held)", "the combinators' semantics as decided under C17"}
@@ -165,7 +165,7 @@ func checkC22(p *Prog, r *Result, tier string) {
 	r.min("AP", 2)
 	r.min("AN", 3)
 	r.min("PX", 1)
-	r.min("FI", 2)
+	r.min("FI", 4)
 	r.min("LC", 4)
 
 	g := getSCG(p, r)
@@ -526,6 +526,15 @@ func checkC22(p *Prog, r *Result, tier string) {
 				continue
 			}
 			a.checkTxnSite(sub, ts, func(e *effectSpec) bool { return nodeEff[e.name] })
+		}
+		// the resource manager's own fan-out over the plugins: the rollback of a partly failed AddNode/RemoveNode acts on
+		// exactly the plugins that answered — rolling back a plugin that REFUSED the node (it exists) deletes the existing
+		// node's resource record
+		for _, ts := range txnSites {
+			if relPath(ts.fn.Pkg.PkgPath) != "resource/cobalt" || ts.fn.Obj == nil || (ts.fn.Obj.Name() != "AddNode" && ts.fn.Obj.Name() != "RemoveNode") {
+				continue
+			}
+			a.checkT5(sub, ts, p.pos(ts.call))
 		}
 		// re-label the T1–T3 obligations as FI
 		for _, o := range sub.Obligs {
